@@ -4,5 +4,5 @@ CONSTANTS
   C = 8
 INIT Init
 NEXT Next
-INVARIANTS Out
+INVARIANTS Out OutProbes
 CHECK_DEADLOCK FALSE
